@@ -270,4 +270,82 @@ theorem unenc_refuses_parity_and_length (data : Bytes) (h20 : 20 ≤ data.length
 example : Unenc.deserialize (zeros 24) = .error .parity ∨ Unenc.deserialize (zeros 24) = .error .length :=
   unenc_refuses_parity_and_length (zeros 24) (by simp) (Or.inl (by decide))
 
+/-! ## the session level: what `MTProto.readMsg` takes for a message -/
+
+/-- **"yields a message only if its key id matches the session's auth key", for a client that works under its key**:
+in encrypted mode (`m.encrypted`: a stored session was loaded or the key exchange has verified dh_gen_ok) no byte
+string whatsoever comes out of `readMsg` as an unencrypted message — in particular not a well-formed plain-text
+frame (zero key id, server-parity msg_id, true length), which anybody can write without the key. `ReadMsg` alone
+(`route`) does return such a frame as a message: the transport cannot know the session's state. -/
+theorem keyed_session_refuses_plain (P : Prims) (key data : Bytes) (mid : Nat) (body : Bytes) :
+    clientRead true P key data ≠ .unenc mid body := by
+  unfold clientRead
+  split
+  · simp
+  · rename_i hr
+    exact fun h => hr mid body h
+
+/-- the well-formed plain-text frame is the witness: the transport hands it on, the keyed client refuses it -/
+example : route toyPrims (zeros 256) (Unenc.serialize 5 [1, 2, 3]) = .unenc 5 [1, 2, 3] ∧
+    clientRead true toyPrims (zeros 256) (Unenc.serialize 5 [1, 2, 3]) = .err "plainInEncryptedSession" := by
+  decide +kernel
+
+/-- … and whatever the keyed client does take for a message was opened under the key in force: the packet's first
+eight bytes are the id of the session's key, `DeserializeEncrypted` accepted it under that key (so all of
+`openClient_sound` / `accepted_is_a_sealing` applies), and its msg_id has server parity -/
+theorem keyed_session_message_is_under_key (P : Prims) (key data : Bytes) (m : Msg)
+    (h : clientRead true P key data = .enc m) :
+    data.take 8 = authKeyId P key ∧ openClient P key data = .ok m ∧ (m.mid % 4 = 1 ∨ m.mid % 4 = 3) := by
+  unfold clientRead at h
+  split at h
+  · simp at h
+  · unfold route at h
+    split at h
+    · cases h
+    · split at h
+      · rename_i henc
+        have h8 : 8 ≤ data.length := by
+          unfold Unenc.isEncrypted at henc
+          split at henc
+          · cases henc
+          · omega
+        split at h
+        · cases h
+        · cases h
+        · rename_i m' hm'
+          split at h
+          · cases h
+          · rename_i hpar
+            cases h
+            refine ⟨?_, hm', by omega⟩
+            by_cases hk : data.take 8 = authKeyId P key
+            · exact hk
+            · rw [openClient_refuses_wrong_key P key data hk h8] at hm'; cases hm'
+      · split at h
+        · cases h
+        · cases h
+        · split at h <;> cases h
+
+/-- (toy primitives whose hash is not all zero, so that the key id is not the zero id of plain text) -/
+example : clientRead true ⟨fun _ => List.replicate 20 1, fun _ _ x => x, fun _ _ x => x⟩ (zeros 256)
+    (Spec.serverSeal ⟨fun _ => List.replicate 20 1, fun _ _ x => x, fun _ _ x => x⟩ (zeros 256) ⟨5, 6, 7, 9, [1, 2, 3]⟩ (zeros 13))
+    = .enc ⟨5, 6, 7, 9, [1, 2, 3]⟩ := by decide +kernel
+
+/-- while the client has no key — the key exchange — `readMsg` passes on what `ReadMsg` returns, plain text included:
+the repair does not touch the handshake -/
+theorem clientRead_before_key (P : Prims) (key data : Bytes) : clientRead false P key data = route P key data := by
+  unfold clientRead
+  split
+  · rename_i heq; simp [heq]
+  · rfl
+
+/-- never a panic at this level either -/
+theorem clientRead_no_panic (enc : Bool) (P : Prims) (key data : Bytes) :
+    ∀ site, clientRead enc P key data ≠ .panic site := by
+  intro site h
+  unfold clientRead at h
+  split at h
+  · split at h <;> cases h
+  · exact route_no_panic P key data site h
+
 end Mtv.Envelope
